@@ -12,6 +12,7 @@ import Tsg.Base.Vars
 import Tsg.Base.Tree
 import Tsg.Sem.Monad
 import Tsg.Sem.Stdlib
+import Tsg.Sem.Prog
 
 /-- one query match: pattern index and, per capture name, the captured nodes in the order
 `nodes_for_capture_index` yields them -/
@@ -34,20 +35,12 @@ structure Cfg where
   matchAttr : Option String
   deriving Inhabited
 
-/-- mutable state of a strict run -/
-structure SSt where
-  graph : CGraph
+/-- private mutable state of a strict run (the graph and the poll counter live in `Prog.MSt`) -/
+structure SRest where
   locals : Frames Val
   /-- `ScopedVariables.scopes`: syntax node id ↦ its variables (value, mutable) -/
   scopedVars : List (Nat × Frame Val)
-  polls : Nat
-  cancelAt : Option Nat
   deriving Inhabited
-
-instance : HasPolls SSt where
-  polls := fun s => s.polls
-  setPolls := fun s n => { s with polls := n }
-  cancelAt := fun s => s.cancelAt
 
 /-- lexical context of a block -/
 structure Env where
@@ -59,13 +52,13 @@ structure Env where
   ctx : StmtCtx
   deriving Inhabited
 
-abbrev SM := ExecM SSt
+abbrev SM := Prog SRest
 
 namespace Strict
-open ExecM
+open Prog (pollP failP throwK panicAt gopP primP withContext getR modifyR ofExcept ofExceptF)
 
 /-- `Value::from_nodes` (execution.rs:318-346) -/
-def fromNodes {σ : Type} (q : Quant) (nodes : List Nat) : ExecM σ Val :=
+def fromNodes {ρ : Type} (q : Quant) (nodes : List Nat) : Prog ρ Val :=
   match q with
   | .zero => panicAt "from_nodes:unreachable"
   | .one =>
@@ -86,9 +79,9 @@ def asSyntaxScope : Val → SM Nat
   | .syn i => pure i
   | _ => throwK .invalidVariableScope
 
-def scopedFrame (s : SSt) (node : Nat) : Frame Val := (s.scopedVars.lookup node).getD []
+def scopedFrame (s : SRest) (node : Nat) : Frame Val := (s.scopedVars.lookup node).getD []
 
-def setScopedFrame (s : SSt) (node : Nat) (f : Frame Val) : SSt :=
+def setScopedFrame (s : SRest) (node : Nat) (f : Frame Val) : SRest :=
   if (s.scopedVars.lookup node).isSome then
     { s with scopedVars := s.scopedVars.map fun e => if e.1 = node then (node, f) else e }
   else { s with scopedVars := s.scopedVars ++ [(node, f)] }
@@ -96,7 +89,7 @@ def setScopedFrame (s : SSt) (node : Nat) (f : Frame Val) : SSt :=
 def frameGet (f : Frame Val) (name : String) : Option Val := (f.lookup name).map (·.1)
 
 /-- `ScopedVariable::get` after the scope has been evaluated (strict.rs:748-779) -/
-def scopedLookup (cfg : Cfg) (s : SSt) (node : Nat) (name : String) : Option Val :=
+def scopedLookup (cfg : Cfg) (s : SRest) (node : Nat) (name : String) : Option Val :=
   match frameGet (scopedFrame s node) name with
   | some v => some v
   | none =>
@@ -104,56 +97,52 @@ def scopedLookup (cfg : Cfg) (s : SSt) (node : Nat) (name : String) : Option Val
       (cfg.tree.ancestors node).findSome? fun a => frameGet (scopedFrame s a) name
     else none
 
-def scopedAdd (node : Nat) (name : String) (v : Val) (mutable : Bool) : SM Unit := fun s =>
+def scopedAdd (node : Nat) (name : String) (v : Val) (mutable : Bool) : SM Unit := primP fun s =>
   match Frames.add [scopedFrame s node] name v mutable with
-  | .ok [f] => .ok () (setScopedFrame s node f)
-  | .ok _ => .fail (.panic "scoped:frames") s
-  | .error _ => .fail (.err (.base .duplicateVariable "")) (setScopedFrame s node (scopedFrame s node))
+  | .ok [f] => (.ok (), setScopedFrame s node f)
+  | .ok _ => (.error (.panic "scoped:frames"), s)
+  | .error _ => (.error (.err (.base .duplicateVariable "")), setScopedFrame s node (scopedFrame s node))
 
-def scopedSet (node : Nat) (name : String) (v : Val) : SM Unit := fun s =>
+def scopedSet (node : Nat) (name : String) (v : Val) : SM Unit := primP fun s =>
   match Frames.set [scopedFrame s node] name v with
-  | .ok [f] => .ok () (setScopedFrame s node f)
-  | .ok _ => .fail (.panic "scoped:frames") s
-  | .error _ => .fail (.err (.base .duplicateVariable "")) (setScopedFrame s node (scopedFrame s node))
+  | .ok [f] => (.ok (), setScopedFrame s node f)
+  | .ok _ => (.error (.panic "scoped:frames"), s)
+  | .error _ => (.error (.err (.base .duplicateVariable "")), setScopedFrame s node (scopedFrame s node))
 
 /-- `UnscopedVariable::get` (strict.rs:823-830): globals take precedence -/
-def unscopedGet (cfg : Cfg) (name : String) : SM Val := fun s =>
+def unscopedGet (cfg : Cfg) (name : String) : SM Val := primP fun s =>
   match cfg.globals.get name with
-  | some v => .ok v s
+  | some v => (.ok v, s)
   | none =>
     match s.locals.get name with
-    | some v => .ok v s
-    | none => .fail (.err (.base .undefinedVariable "")) s
+    | some v => (.ok v, s)
+    | none => (.error (.err (.base .undefinedVariable "")), s)
 
-def unscopedAdd (cfg : Cfg) (name : String) (v : Val) (mutable : Bool) : SM Unit := fun s =>
+def unscopedAdd (cfg : Cfg) (name : String) (v : Val) (mutable : Bool) : SM Unit := primP fun s =>
   match cfg.globals.get name with
-  | some _ => .fail (.err (.base .duplicateVariable "")) s
+  | some _ => (.error (.err (.base .duplicateVariable "")), s)
   | none =>
     match s.locals.add name v mutable with
-    | .ok l => .ok () { s with locals := l }
-    | .error _ => .fail (.err (.base .duplicateVariable "")) s
+    | .ok l => (.ok (), { s with locals := l })
+    | .error _ => (.error (.err (.base .duplicateVariable "")), s)
 
-def unscopedSet (cfg : Cfg) (name : String) (v : Val) : SM Unit := fun s =>
+def unscopedSet (cfg : Cfg) (name : String) (v : Val) : SM Unit := primP fun s =>
   match cfg.globals.get name with
-  | some _ => .fail (.err (.base .cannotAssignImmutableVariable "")) s
+  | some _ => (.error (.err (.base .cannotAssignImmutableVariable "")), s)
   | none =>
     match s.locals.set name v with
-    | .ok l => .ok () { s with locals := l }
+    | .ok l => (.ok (), { s with locals := l })
     | .error _ =>
-      if (s.locals.get name).isSome then .fail (.err (.base .cannotAssignImmutableVariable "")) s
-      else .fail (.err (.base .undefinedVariable "")) s
+      if (s.locals.get name).isSome then (.error (.err (.base .cannotAssignImmutableVariable "")), s)
+      else (.error (.err (.base .undefinedVariable "")), s)
 
-def pushFrame : SM Unit := modifySt fun s => { s with locals := s.locals.push }
-def popFrame : SM Unit := modifySt fun s => { s with locals := s.locals.pop }
-def clearFrame : SM Unit := modifySt fun s => { s with locals := s.locals.clear }
+def pushFrame : SM Unit := modifyR fun s => { s with locals := s.locals.push }
+def popFrame : SM Unit := modifyR fun s => { s with locals := s.locals.pop }
+def clearFrame : SM Unit := modifyR fun s => { s with locals := s.locals.clear }
 
 /-- `Functions::call` on the standard library, threading the graph -/
-def callFn (cfg : Cfg) (name : String) (args : List Val) : SM Val := fun s =>
-  match Stdlib.call cfg.oracle cfg.tree name args s.graph with
-  | .ok v g => .ok v { s with graph := g }
-  | .err k => .fail (.err (.base k "")) s
-  | .panic site => .fail (.panic site) s
-  | .need q => .fail (.need q) s
+def callFn {ρ : Type} (cfg : Cfg) (name : String) (args : List Val) : Prog ρ Val :=
+  gopP (.callFn cfg.oracle cfg.tree name args)
 
 /-- where an `attr` statement puts its attributes -/
 inductive Target where
@@ -162,27 +151,27 @@ inductive Target where
   deriving Repr, Inhabited
 
 /-- the `add_attribute` closures of `AddGraphNodeAttribute` / `AddEdgeAttribute` -/
-def addAttribute (t : Target) (name : String) (v : Val) : SM Unit := fun s =>
+def addAttribute {ρ : Type} (t : Target) (name : String) (v : Val) : Prog ρ Unit :=
   match t with
-  | .node n =>
-    match s.graph.addNodeAttr n name v with
-    | none => .fail (.panic "graph index") s
-    | some (g, false) => .ok () { s with graph := g }
-    | some (g, true) => .fail (.err (.base .duplicateAttribute "")) { s with graph := g }
-  | .edge src sink =>
-    match s.graph.addEdgeAttr src sink name v with
-    | none => .fail (.panic "graph index") s
-    | some none => .fail (.err (.base .undefinedEdge "")) s
-    | some (some (g, false)) => .ok () { s with graph := g }
-    | some (some (g, true)) => .fail (.err (.base .duplicateAttribute "")) { s with graph := g }
+  | .node n => do
+    let r ← gopP (.addNodeAttr n name v (.err (.base .duplicateAttribute "")))
+    match r with
+    | none => panicAt "graph index"
+    | some () => pure ()
+  | .edge src sink => do
+    let r ← gopP (.addEdgeAttr src sink name v (.err (.base .duplicateAttribute "")))
+    match r with
+    | none => panicAt "graph index"
+    | some none => throwK .undefinedEdge
+    | some (some ()) => pure ()
 
 /-- `Attributes::add` on a graph node for the debug attributes -/
-def addDebugNodeAttr (n : Nat) (name : String) (v : Val) : SM Unit := addAttribute (.node n) name v
+def addDebugNodeAttr {ρ : Type} (n : Nat) (name : String) (v : Val) : Prog ρ Unit := addAttribute (.node n) name v
 
 def locString (l : Loc) : String := "line " ++ toString (l.row + 1) ++ " column " ++ toString (l.col + 1)
 
 /-- the full-match node of the running match (`expect("missing full capture")`) -/
-def fullMatchNode (env : Env) : SM Nat :=
+def fullMatchNode {ρ : Type} (env : Env) : Prog ρ Nat :=
   match env.mat.nodes fullMatchName with
   | n :: _ => pure n
   | [] => panicAt "missing full capture"
@@ -253,7 +242,7 @@ def evalExpr (cfg : Cfg) (fuel : Nat) (env : Env) (e : Expr) : SM Val :=
   | .scopedVar scope name _ => do
     let sv ← evalExpr cfg fuel env scope
     let node ← asSyntaxScope sv
-    let s ← getSt
+    let s ← getR
     match scopedLookup cfg s node name with
     | some v => pure v
     | none => throwK .undefinedVariable
@@ -336,19 +325,19 @@ def execAttrs (cfg : Cfg) (fuel : Nat) (env : Env) (t : Target) (attrs : List At
   match attrs with
   | [] => pure ()
   | (name, e) :: rest => do
-    poll "executing attribute"
+    pollP "executing attribute"
     let v ← evalExpr cfg fuel env e
     match findShorthand cfg name with
     | some sh =>
       match fuel with
-      | 0 => fail .outOfFuel
+      | 0 => failP .outOfFuel
       | fuel' + 1 => do
         -- `shorthand_locals = VariableMap::new()`: the body sees no locals of the caller
-        let saved ← getSt
-        modifySt fun s => { s with locals := [[]] }
+        let saved ← getR
+        modifyR fun s => { s with locals := [[]] }
         unscopedAdd cfg sh.var v false
         execAttrs cfg fuel' env t sh.attrs
-        modifySt fun s => { s with locals := saved.locals }
+        modifyR fun s => { s with locals := saved.locals }
         execAttrs cfg (fuel' + 1) env t rest
     | none => do
       addAttribute t name v
@@ -369,7 +358,7 @@ inductive BlockKind where
 mutual
 
 def execStmt (cfg : Cfg) (fuel : Nat) (env : Env) (st : Stmt) : SM Unit := do
-  poll "executing statement"
+  pollP "executing statement"
   match st with
   | .declImm v e _ => do
     let value ← evalExpr cfg fuel env e
@@ -381,9 +370,7 @@ def execStmt (cfg : Cfg) (fuel : Nat) (env : Env) (st : Stmt) : SM Unit := do
     let value ← evalExpr cfg fuel env e
     varSet cfg fuel env v value
   | .createNode v _ => do
-    let s ← getSt
-    let (g, n) := s.graph.addGraphNode
-    setSt { s with graph := g }
+    let n ← gopP .addNode
     match cfg.varAttr with
     | some a => addDebugNodeAttr n a (.str v.display)
     | none => pure ()
@@ -405,16 +392,13 @@ def execStmt (cfg : Cfg) (fuel : Nat) (env : Env) (st : Stmt) : SM Unit := do
     let src ← asGraphNode av
     let bv ← evalExpr cfg fuel env b
     let sink ← asGraphNode bv
-    let s ← getSt
-    match s.graph.addEdge src sink with
+    let attrs : Attrs := match cfg.locAttr with
+      | some la => [(la, .str (locString loc))]
+      | none => []
+    let r ← gopP (.addEdge src sink attrs)
+    match r with
     | none => panicAt "graph index"
-    | some (g, isNew) => do
-      setSt { s with graph := g }
-      if isNew then
-        match cfg.locAttr with
-        | some la => addAttribute (.edge src sink) la (.str (locString loc))
-        | none => pure ()
-      else pure ()
+    | some _ => pure ()
   | .attrEdge a b attrs _ => do
     let av ← evalExpr cfg fuel env a
     let src ← asGraphNode av
@@ -476,9 +460,9 @@ termination_by (fuel, sizeOf body, vals.length + 1)
 def scanLoop (cfg : Cfg) (fuel : Nat) (env : Env) (arms : List (String × List Stmt × Loc))
     (subject : String) (i : Nat) : SM Unit :=
   if h : i < subject.utf8ByteSize then do
-    poll "processing scan matches"
+    pollP "processing scan matches"
     match scanCollect cfg.oracle subject i arms 0 with
-    | .error f => fail f
+    | .error f => failP f
     | .ok ms =>
       match scanBest ms with
       | none => pure ()
@@ -494,7 +478,7 @@ def scanLoop (cfg : Cfg) (fuel : Nat) (env : Env) (arms : List (String × List S
             execBlock cfg fuel { env with caps := capsOf m } (.scanArm re) body
             popFrame
             scanLoop cfg fuel env arms subject (i + m.stop)
-          else fail (.err (.base .emptyRegexCapture ""))
+          else failP (.err (.base .emptyRegexCapture ""))
   else pure ()
 termination_by (fuel, sizeOf arms, subject.utf8ByteSize - i + 1)
 
@@ -502,7 +486,7 @@ end
 
 /-- `Stanza::execute` for one match (strict.rs:166-209) -/
 def execMatch (cfg : Cfg) (fuel : Nat) (st : Stanza) (m : QMatch) : SM Unit := do
-  modifySt fun s => { s with locals := s.locals.clear }
+  modifyR fun s => { s with locals := s.locals.clear }
   match st.stmts with
   | [] => pure ()
   | stmts =>
@@ -549,12 +533,6 @@ def checkGlobals : List Global → GlobalsM → Except EK GlobalsM
         | _ => .error .expectedList
       else checkGlobals rest g
 
-/-- result of a whole run -/
-structure RunResult where
-  outcome : Option Fail     -- `none` = Ok(())
-  graph : CGraph
-  polls : Nat
-
 /-- `File::execute_strict_into` -/
 def Strict.run (file : File) (tree : Tree) (oracle : Oracle) (callerGlobals : GlobalsM)
     (locAttr varAttr matchAttr : Option String) (cancelAt : Option Nat) (fuel : Nat)
@@ -564,7 +542,6 @@ def Strict.run (file : File) (tree : Tree) (oracle : Oracle) (callerGlobals : Gl
   | .ok globals =>
     let cfg : Cfg := { tree, oracle, globals, inherited := file.inherited, shorthands := file.shorthands,
                        locAttr, varAttr, matchAttr }
-    let s0 : SSt := { graph := g0, locals := [[]], scopedVars := [], polls := 0, cancelAt }
-    match Strict.execStanzas cfg fuel (file.stanzas.zip matchLists) s0 with
-    | .ok () s => { outcome := none, graph := s.graph, polls := s.polls }
-    | .fail f s => { outcome := some f, graph := s.graph, polls := s.polls }
+    let s0 : Prog.MSt SRest := { graph := g0, rest := { locals := [[]], scopedVars := [] },
+                                 ps := { polls := 0, cancelAt } }
+    Prog.toResult (Prog.run (Strict.execStanzas cfg fuel (file.stanzas.zip matchLists)) s0)
